@@ -293,15 +293,9 @@ def check_registry(repo, rep):
         if out.kind != "return" or got != ["O0", "O3"]:
             rep.violation(rid, "Sandbox.cancel_all_orders", f"cancel_all_orders cancels {got}; expected every active order ['O0', 'O3']")
         rep.instance(rid, "Sandbox.cancel_all_orders", {"cancelled": got})
-    # pruning in every step for every route
-    for sim in ("_step_simulator", "_skip_simulator"):
-        view = SL.sim_view(repo, sim, {"update_active_orders", "_execute"})
-        for evs in view["iters"]:
-            for seg in SL.segments(evs, "routes"):
-                n = sum(1 for e in seg if e[0] == "call" and e[1] == "update_active_orders")
-                if n != 1:
-                    rep.violation(rid, f"{sim}|prune-per-route", f"{sim}: update_active_orders runs {n} times for a route in a step (expected 1)")
-                rep.instance(rid, f"{sim}|route|{' '.join(SL.names(seg))}")
+    # pruning in every step for every route: both simulator functions interpreted on mini sessions (props/sessions.py)
+    from props import sessions as S
+    S.check_protocol(repo, rep, rid, what="prune")
     rep.floor(rid, 8)
 
 
